@@ -39,6 +39,9 @@ type ParamCfg struct {
 	WithdrawRetention    uint64
 	InactivityWait       uint64
 	PenaltyInactive      uint64
+	// PoolTenths: genesis balance of the rewards pool in tenths of a YOU (0 = the
+	// default of 1000 units + 1, which no bounded history can drain)
+	PoolTenths uint64
 }
 
 var DefaultCfg = ParamCfg{StakingTrieFrequency: 2, MaxRewardsPeriod: 2, WithdrawDelay: 2, WithdrawRetention: 1, InactivityWait: 1000, PenaltyInactive: 1}
@@ -83,7 +86,10 @@ func SetParams(c ParamCfg) {
 	v5.MaxDelegationForValidator = 2
 	v5.MaxDelegationForDelegator = 2
 	params.Versions[params.YouV5] = v5
+	curCfg = c
 }
+
+var curCfg ParamCfg
 
 func V5() params.YouParams { return params.Versions[params.YouV5] }
 
@@ -222,6 +228,10 @@ func (f *Fixture) Genesis() *core.Genesis {
 		g.Alloc[a.Addr] = core.GenesisAccount{Balance: Unit(100, 999)}
 	}
 	g.Alloc[yp.RewardsPoolAddress] = core.GenesisAccount{Balance: Unit(1000, 1)}
+	if curCfg.PoolTenths != 0 {
+		pool := new(big.Int).Mul(new(big.Int).SetUint64(curCfg.PoolTenths), big.NewInt(params.YOU/10))
+		g.Alloc[yp.RewardsPoolAddress] = core.GenesisAccount{Balance: pool.Add(pool, big.NewInt(1))}
+	}
 	// KStore: SSTORE(0, CALLVALUE+1) ; STOP      KRevert: REVERT(0,0)
 	g.Alloc[f.KStore] = core.GenesisAccount{Balance: big.NewInt(5), Code: []byte{0x34, 0x60, 0x01, 0x01, 0x60, 0x00, 0x55, 0x00}}
 	g.Alloc[f.KRevert] = core.GenesisAccount{Balance: big.NewInt(0), Code: []byte{0x60, 0x00, 0x60, 0x00, 0xfd}}
